@@ -40,6 +40,7 @@ type mSym struct {
 	name   string
 	nonNil bool
 	typ    types.Type
+	rt     types.Type // for the result of reflect.TypeOf: the type described
 }
 
 type mStruct []mv
@@ -1111,6 +1112,15 @@ func (m *mach) invoke(fr *mframe, fn mv, args []mv, env []mv, at ssa.Instruction
 	case *ssa.Builtin:
 		return m.builtin(fr, f, args, at)
 	case *symMethod:
+		// reflect.Type of a known dynamic type
+		if f.recv.rt != nil {
+			switch f.method.Name() {
+			case "Comparable":
+				return types.Comparable(f.recv.rt)
+			case "String":
+				return f.recv.rt.String()
+			}
+		}
 		// a method of an opaque object: the rule gives it a meaning through symCall
 		if m.symCall != nil {
 			if r, ok := m.symCall(m, f.recv, f.method, args); ok {
